@@ -24,6 +24,7 @@ type teidOp struct {
 	K  string `json:"k"` // alloc | free | freeunk
 	N  int    `json:"n,omitempty"`
 	Ix int    `json:"ix,omitempty"`
+	Cur uint32 `json:"cur,omitempty"` // rewind: where the cursor is put (a later trip round the 32-bit range)
 }
 
 type c07Gen struct {
@@ -78,6 +79,10 @@ func runC07Gen(c c07Gen, ev *Ev) error {
 			if g.IsAllocated(id) {
 				return fmt.Errorf("op %d: IsAllocated(%d) still true after FreeID", i, id)
 			}
+		case "rewind":
+			// a later trip round the range: the cursor comes back to a region whose ids may still be held
+			pfcpiface.VerifFTEIDSetOffset(g, op.Cur)
+			last = 0
 		case "freeunk":
 			g.FreeID(0)
 			g.FreeID(uint32(op.N) + 7)
@@ -113,11 +118,13 @@ func genC07Gen(t *rapid.T) c07Gen {
 	).Draw(t, "cursor")}
 	n := rapid.IntRange(1, 30).Draw(t, "n")
 	for i := 0; i < n; i++ {
-		switch rapid.IntRange(0, 3).Draw(t, "k") {
+		switch rapid.IntRange(0, 4).Draw(t, "k") {
 		case 0, 1:
 			c.Ops = append(c.Ops, teidOp{K: "alloc", N: rapid.IntRange(1, 6).Draw(t, "cnt")})
 		case 2:
 			c.Ops = append(c.Ops, teidOp{K: "free", Ix: rapid.IntRange(0, 50).Draw(t, "ix")})
+		case 3:
+			c.Ops = append(c.Ops, teidOp{K: "rewind", Cur: rapid.OneOf(rapid.Uint32Range(0xfffffff0, 0xfffffffe), rapid.Uint32Range(0, 8), rapid.Just(c.Cursor)).Draw(t, "cur")})
 		default:
 			c.Ops = append(c.Ops, teidOp{K: "freeunk", N: rapid.IntRange(0, 20).Draw(t, "unk")})
 		}
@@ -127,7 +134,7 @@ func genC07Gen(t *rapid.T) c07Gen {
 
 func TestC07Gen(t *testing.T) {
 	ev := newEv("C07")
-	ev.Rule = "F-TEID generator driven directly: allocate/free sequences with the cursor placed (hook) near 2^32 so that the wrap is crossed; every id must be non-zero, not among the allocated ones, and IsAllocated must agree with the model; non-trivial = an id allocated after the cursor wrapped or after a free; distinct by case"
+	ev.Rule = "F-TEID generator driven directly: allocate/free sequences with the cursor placed (hook) near 2^32 so that the wrap is crossed, and put back (rewind) into regions whose ids are still held, as on a later trip round the range; every id must be non-zero, not among the allocated ones, and IsAllocated must agree with the model; non-trivial = an id allocated after the cursor wrapped or after a free; distinct by case"
 	runProp(t, ev, "gen", false, genC07Gen, runC07Gen)
 }
 
